@@ -710,20 +710,32 @@ class State:
         for p in numeric_places:
             xt = ("v", p[0], p[1])
             va, vb = self.sym.get(p), other.sym.get(p)
-            if not (va is not None and vb is not None and va[0] == "n" and vb[0] == "n" and va[1] is None and vb[1] is None):
+            ca = va is not None and va[0] == "n" and va[1] is None
+            cb = vb is not None and vb[0] == "n" and vb[1] is None
+            if not (ca or cb):
                 continue
             for t in self.iv:
-                if t[0] != "len" or t not in other.iv:
+                if t[0] != "len" or t not in other.iv or (xt, t) in s.rel:
                     continue
-                la, lb = self.iv[t][0], other.iv[t][0]
-                if la is None or lb is None:
+
+                def side(st_, v_, isconst, idx_):
+                    if isconst:
+                        lo_ = st_.iv[t][0]
+                        return None if lo_ is None else v_[2] - lo_
+                    if v_ is not None and v_[0] == "n" and v_[1] is not None:
+                        d_ = st_.bound1(v_[1], t, idx_)
+                        return None if d_ is None else d_ + v_[2]
+                    return st_.bound1(xt, t, idx_)
+                da, db = side(self, va, ca, idx_s), side(other, vb, cb, idx_o)
+                if da is None or db is None:
                     continue
-                d = max(va[2] - la, vb[2] - lb)
-                if d <= 0 and (xt, t) not in s.rel:
-                    hi = s.iv.get(xt, FULL)[1]
-                    lo = s.iv.get(t, FULL)[0]
-                    if hi is None or lo is None or hi - lo > d:
-                        s.rel[(xt, t)] = d
+                d = max(da, db)
+                if d > 65536:
+                    continue            # nothing beyond what the type ranges say
+                hi = s.iv.get(xt, FULL)[1]
+                lo = s.iv.get(t, FULL)[0]
+                if hi is None or lo is None or hi - lo > d:
+                    s.rel[(xt, t)] = d
         # boolean flag correlation: a local that is the constant true on one side and false on the other remembers
         # the facts that distinguish the two sides ("is_short == true  =>  ch <= 255 ...")
         for p in set(self.sym) | set(other.sym):
